@@ -137,6 +137,52 @@ def _subst_atoms(t, m):
     return _mk(d)
 
 
+def lift(t, depth=0):
+    """Lift if-then-else atoms out of polynomials / calls: f(ite(c,a,b)) -> ite(c, f(a), f(b)).
+    Redoes the polynomial arithmetic in both arms so that the arms are canonical."""
+    from .sym import atoms_of
+    if depth > 6 or not isinstance(t, tuple) or not t:
+        return t
+    if t[0] == "ite":
+        return ("ite", t[1], lift(t[2], depth), lift(t[3], depth))
+    ites = [a for a in atoms_of(t) if a[0] == "ite" and a != t]
+    if not ites:
+        return t
+    # choose an outermost ite (one that is not inside another ite atom)
+    ites.sort(key=lambda a: -len(repr(a)))
+    it = ites[0]
+    a = renorm(_replace(t, it, it[2]))
+    b = renorm(_replace(t, it, it[3]))
+    return ("ite", it[1], lift(a, depth + 1), lift(b, depth + 1))
+
+
+def _replace(t, old, new):
+    if t == old:
+        return new
+    if isinstance(t, tuple):
+        return tuple(_replace(x, old, new) if isinstance(x, tuple) else x for x in t)
+    return t
+
+
+def renorm(t):
+    """Re-normalise a term after substitution (polynomial arithmetic is redone)."""
+    from . import sym
+    if not isinstance(t, tuple) or not t:
+        return t
+    if t[0] == "poly":
+        acc = sym.num(0)
+        for mono, c in t[1]:
+            term = sym.num(c)
+            for a, p in mono:
+                a2 = renorm(a)
+                term = sym.mul(term, sym.powi(a2, p)) if p >= 0 else sym.div(term, sym.powi(a2, -p))
+            acc = sym.add(acc, term)
+        return acc
+    if isinstance(t[0], str):
+        return (t[0],) + tuple(renorm(x) if isinstance(x, tuple) else x for x in t[1:])
+    return tuple(renorm(x) if isinstance(x, tuple) else x for x in t)
+
+
 def describe(d):
     kind, path, got, want = d
     if kind == "equal":
